@@ -113,12 +113,22 @@ def run_check(modname, tier, seed, replay=None):
                 big.append(it2)
         items = big + items
     work = [(modname, it, opts) for it in items]
+    opts.setdefault("item_wall", 240 if tier == "thorough" else 150)  # per work item; hitting it makes the item non-exhaustive (reported)
+    work = [(modname, it, opts) for it in items]
     with ctx.Pool(nproc, maxtasksperchild=opts.get("maxtasks", 400)) as pool:
-        for st in pool.imap_unordered(_worker, work, chunksize=1):
-            if st.error:
-                errors.append({"item": jsonable(st.item), "error": st.error})
-            total.merge(st)
-            per_item.append((st.item.get("name", ""), st.paths, round(st.item_wall, 2)))
+        results = pool.imap_unordered(_worker, work, chunksize=1)
+        while True:
+            try:
+                st = results.next(timeout=5)
+            except mp.TimeoutError:
+                st = None
+            except StopIteration:
+                break
+            if st is not None:
+                if st.error:
+                    errors.append({"item": jsonable(st.item), "error": st.error})
+                total.merge(st)
+                per_item.append((st.item.get("name", ""), st.paths, round(st.item_wall, 2)))
             if budget and time.monotonic() - t0 > budget:
                 pool.terminate()
                 skipped = len(work) - len(per_item)
